@@ -703,7 +703,7 @@ def check_pages(w, i, t, op, o, checks):
 
 CHECKS = {
     "C01": {"map", "observe", "crash"},
-    "C02": {"search", "observe", "crash"},
+    "C02": {"search", "pages", "observe", "crash"},
     "C03": {"index", "observe", "crash"},
     "C04": {"pages", "crash"},
     "C05": {"cond", "observe", "crash"},
